@@ -361,6 +361,12 @@ def legs(tier):
                    bound='tableaux N<=2 (%s) x 23 maps spread over the group (rotating with the tableau index)' % ('all' if tier != 'quick' else 'every 4th')))
     out.append(Leg('torch_maps', fn_maps, [[1, i, 'torch'] for i in range(6)] + [[2, i, 'torch'] for i in range(0, 720, 1 if tier != 'quick' else 3)], chunk=4,
                    bound='torchclifford: N=1 all tables, N=2 %s tables x 4 sign patterns' % ('all 720' if tier != 'quick' else '240')))
-    out.append(Leg('torch_masks', fn_masks, [[2, 1, 0, 0, 24, 'torch'], [2, 1, 1, 0, 24, 'torch'], [3, 1, 1, 0, 24, 'torch'], [3, 2, 1, 0, 40, 'torch'], [3, 2, 2, 5000, 5040, 'torch']],
-                   chunk=1, bound='torchclifford: masked transform_by for one-qubit maps and 80 two-qubit maps'))
+    tm = [[N, 1, mi, 0, 24, 'torch'] for N in (2, 3, 4) for mi in range(N)]
+    tm += [[3, 2, mi, lo, lo + 24, 'torch'] for mi in range(3) for lo in (0, 5000, 9000)]
+    tm += [[4, 2, mi, 1234 + 500 * mi, 1234 + 500 * mi + 6, 'torch'] for mi in range(6)]
+    from .c02 import fn_layouts_torch
+    out.append(Leg('torch_layouts', fn_layouts_torch, [[N, gi] for N in (2, 3) for gi in range(2, 4 ** N, 3 if N == 2 else 13)], chunk=1,
+                   bound='torchclifford: transform_by / rotate_by, unmasked and through every 1- and 2-qubit mask, on step-sliced, transposed and column-window operand tensors'))
+    out.append(Leg('torch_masks', fn_masks, tm, chunk=1,
+                   bound='torchclifford: masked transform_by: all 24 one-qubit maps at every position of N=2,3,4; 72 two-qubit maps on each of the 3 masks of N=3; 6 on each of the 6 two-qubit masks of N=4'))
     return out
